@@ -9,6 +9,8 @@ C09 — apply() is pure: no history, aliasing or batch-size effects.  Property t
                        image = barycentric combination of the target vertices
   Props/C09Chain.lean  `TransformChain._apply` / `WithDims._apply` as folds; chains with a piecewise-affine member
   Props/C09Memo.lean   the memo as its two attributes written in sequence
+  Props/C09Src.lean    the definitions that mirror the source text (Core/C09Src.lean, proved equal to the translation of
+                       the working tree by GenProps/C09Src.lean) are this model; the property theorems restated for them
   below                the caching piecewise affine transform end to end; fresh-transform form of the frame theorem
 -/
 import MenpoModel.Props.C09Base
@@ -16,6 +18,7 @@ import MenpoModel.Props.C09Pwa
 import MenpoModel.Props.C09Geom
 import MenpoModel.Props.C09Chain
 import MenpoModel.Props.C09Memo
+import MenpoModel.Props.C09Src
 
 namespace MenpoModel.C09
 
